@@ -255,6 +255,11 @@ Section Consumers.
   Lemma as_nodes_sim v v' : vsim v v' -> as_nodes v = as_nodes v'.
   Proof. intros H. inversion H; reflexivity. Qed.
 
+  (* Python's bool() of a filter value that is not a NodeList *)
+  Definition is_truthy_py (v : fval) : bool := match v with VVal j => py_truthy j | _ => true end.
+  Lemma is_truthy_py_sim v v' : vsim v v' -> is_truthy_py v = is_truthy_py v'.
+  Proof. intros H. inversion H as [ | a a' Ha | | ]; subst; try reflexivity. exact (py_truthy_sim _ _ Ha). Qed.
+
   (* call_function re-expressed through the observations that vsim preserves *)
   Definition call_obs (name : ustr) (args : list fval) : result fval :=
     if ustr_eqb name name_length then
@@ -296,6 +301,17 @@ Section Consumers.
                                 end))
       | _ => Err (EBuiltin BTypeError)
       end
+    else if ustr_eqb name name_typeof then
+      match args with
+      | [a] => match as_nodes a with
+               | Some [] => Ok (VVal (JStr word_undefined))
+               | Some [n] => Ok (VVal (JStr (typeof_word (m_val n))))
+               | Some _ => Ok (VVal (JStr word_array))
+               | None => if is_truthy_py a then Err (EBuiltin BAttributeError)
+                         else Ok (VVal (JStr word_undefined))
+               end
+      | _ => Err (EBuiltin BTypeError)
+      end
     else Err EUnsupported.
 
   Lemma call_function_obs name args : call_function rf rs name args = call_obs name args.
@@ -311,6 +327,8 @@ Section Consumers.
     destruct (ustr_eqb name name_search).
     { destruct args as [|a [|b [|c r]]]; try reflexivity;
         destruct a as [?|[]| |]; try reflexivity; try (destruct b as [?|[]| |]; reflexivity). }
+    destruct (ustr_eqb name name_typeof).
+    { destruct args as [|a [|b r]]; try reflexivity; destruct a as [[|n [|n' ns]]|j| |]; reflexivity. }
     reflexivity.
   Qed.
 
@@ -335,6 +353,9 @@ Section Consumers.
     { inversion H as [|a a' r r' Ha Hr]; subst; [reflexivity|].
       inversion Hr as [|b b' r2 r2' Hb Hr2]; subst; [reflexivity|]. inversion Hr2; subst; [|reflexivity].
       rewrite (as_str_sim _ _ Ha), (as_str_sim _ _ Hb). reflexivity. }
+    destruct (ustr_eqb name name_typeof).
+    { inversion H as [|a a' r r' Ha Hr]; subst; [reflexivity|]. inversion Hr; subst; [|reflexivity].
+      rewrite (is_truthy_py_sim _ _ Ha), (as_nodes_sim _ _ Ha). reflexivity. }
     reflexivity.
   Qed.
 End Consumers.
